@@ -114,6 +114,9 @@ def inputs(tier):
                                       list(sub), 0]))
                 if size == 2:
                     out.append(("cases", [u, list(sub), 1]))
+    # an un-orderable (complex) argument with repeated values
+    for sub in ([0, 6], [0, 1, 7], [3, 14, 5], [10, 4, 0, 13], [2, 0, 1, 4]):
+        out.append(("cases", ["cplx", sub, 0]))
     return out
 
 
@@ -129,7 +132,8 @@ def cases(tier, seed):
         # (the small mixed-type universe is kept whole)
         ins = [x for i, x in enumerate(ins)
                if core.pick([x, "in"], 4) == 0
-               or (x[0] == "cases" and x[1][0] == "mixnum" and x[1][2] == 0)]
+               or (x[0] == "cases" and x[1][0] in ("mixnum", "cplx")
+                   and x[1][2] == 0)]
     for ii, ((ik, ispec), (dname, d)) in enumerate(
             itertools.product(ins, DESCS.items())):
         spell = list(itertools.product(range(len(d["vn"])), range(len(d["vd"]))))
@@ -137,6 +141,12 @@ def cases(tier, seed):
             j += 1
             for ei, entry in enumerate(entries):
                 if entry in ("to_df", "runner_df") and dname not in DF_OK:
+                    continue
+                if entry in ("to_df", "runner_df") and ik == "cases" and \
+                        ispec[0] == "cplx":
+                    # (a complex column makes pandas store the whole table
+                    # as complex numbers: equal values, other types - the
+                    # Dataset forms carry this universe)
                     continue
                 yield {"input": ik, "spec": ispec, "desc": dname, "vn": vni,
                        "vd": vdi, "entry": entry,
@@ -188,7 +198,14 @@ def check_case(case):
         cs = [tuple(c) for c in chosen]
         gp = list(itertools.product(*[v for _, v in gsub]))
         settings = [dict(zip(names, c + g)) for c in chosen for g in gp]
-        coords = {a: sorted({c[i] for c in chosen})
+        def union(vals_):
+            try:
+                return sorted(set(vals_))
+            except TypeError:
+                # (values that cannot be ordered: the union in any order)
+                return list(dict.fromkeys(vals_))
+
+        coords = {a: union([c[i] for c in chosen])
                   for i, a in enumerate(cnames)}
         coords.update(dict(gsub))
         dim_order = list(names)
@@ -357,6 +374,12 @@ def check_case(case):
                         "(dims %r)" % (a, dict(ds.sizes))))
             return fin(case, vio, len(settings))
         got = ds[a].values.tolist()
+        unordered = any(isinstance(v_, complex) for v_ in coords[a])
+        if unordered and len(got) == len(coords[a]) and \
+                set(got) == set(coords[a]):
+            # (no order is defined: use the one found for the comparisons
+            # below - every value exactly once was just checked)
+            coords[a] = got
         if got != list(coords[a]):
             vio.append((key("coords"), "coordinate %r is %r, swept %r (%s)"
                         % (a, got, coords[a], "given order" if cs is None
